@@ -1,13 +1,25 @@
 """C12 — Spline transforms reproduce the mathematical bases they name.
 
-Correspondence stream `c12` (two request kinds):
-  op=bs  the real `basis_spline(x, …, _state={})` (+ a second call that re-uses the recorded state on new
-         data) against `Model.BSpline.fit/transform`; the model receives the implementation's interior
-         knots as the value of the quantile PARAMETER and re-derives bounds, knot vector, columns and every
-         row exactly in `Rat`;
-  op=cs  the real `cubic_spline(…)` (natural and cyclic, constraints none/'center'/explicit) against
-         `Model.CubicSpline.fit/transform`; parameters handed over: quantile knots, the matrix F returned by
-         `_get_natural_f/_get_cyclic_f`, the columns of Q2 from `numpy.linalg.qr`.
+Correspondence stream `c12` (request kinds):
+  op=bs  the real `basis_spline` (directly or through the TRANSFORMS alias `bs`; arguments passed or left to their
+         defaults; `extrapolation` as string or enum member, also non-members; negative degree; empty data) on
+         an empty `_state`, plus a second call that re-uses the recorded state on new data, against
+         `Model.SplineEntry.basisSpline / transformBs` (argument validation with one reason per `raise` statement, then
+         `Model.BSpline`).  The model derives bounds, knot vector (explicit knots: sorted by the model; `df`: the
+         linear-interpolation quantiles computed exactly by `quantLin`), columns and every row exactly in `Rat`.  The
+         rows are evaluated on the implementation's float quantile knots (handed over as the value of the quantile
+         PARAMETER; its contract = agreement with the model's exact quantile knots at 1e-9 is checked on every case).
+  op=cs  the real `cubic_spline` / the aliases `cr`, `cs`, `cc` (natural and cyclic; constraints None / 'center' /
+         another string / arrays of rank 0-3; x as vector, column, matrix, >2-d array, scalar; omitted arguments;
+         explicit knots in any order, with repeats, equal to a bound, outside the bounds; neither df nor knots;
+         lower > upper) against `Model.SplineEntry.cubicSpline / transformState`.  Knot preparation
+         (`_get_all_sorted_knots`) and the second-derivative map F (`Model.SplineSolve.solveF`: exact elimination,
+         returned with its certificate B.F = D) are computed by the model; the implementation's F is compared with it
+         entry by entry.  Parameter handed over: the columns of Q2 from `numpy.linalg.qr`.
+  op=cs_state  `cubic_spline` on a `_state` supplied by the caller (valid states; cyclic states whose knots coincide,
+         where `_map_cyclic` must refuse) against `transformState`.
+  op=helper  the module-level helpers called directly: `_map_cyclic`, `_get_all_sorted_knots` (every error exit,
+         also those `cubic_spline` cannot reach), `_compute_base_functions`.
   op=uses  a HISTORY of 1-3 uses of one transform that are all handed the SAME argument objects by the caller
          (knots as list / tuple / ndarray / formula literal, the constraint matrix), through the entry points a user
          has: repeated direct calls with fresh state, several terms `bs(x0, knots=K) + bs(x1, knots=K)` of ONE
@@ -15,16 +27,24 @@ Correspondence stream `c12` (two request kinds):
          the recorded state (direct) or `ModelSpec.get_model_matrix`.  The model answers every use independently
          from the arguments the user wrote (`Engines.C12.handle`, op "uses" = map of the single-use engines), so a
          use that sees an earlier one (mutated argument, leaked state) disagrees.
-Parameter contracts checked per case (in `agree`): knots are the linear-interpolation quantiles of the
-model's sample; `B·F = D` (exact residual computed by the model); `c·Q2 = 0`; Q2 has orthonormal columns.
+Errors: the exception class must agree (ExtrapolationError / ValueError / IndexError) and, when the message is one
+of the known ones, the `raise` statement must be the one the model predicts (`Reason`); a reworded message is not
+recognised and only the class is compared.
+Parameter contracts checked per case (in `agree`): quantile knots within 1e-9 of the model's exact ones; F within
+1e-9 (scaled) of the model's exact F; `c·Q2 = 0` (exact residual computed by the model); Q2 has orthonormal columns.
 Values are compared with tolerance 1e-9·max(1,|v|).
 
 Oracle (implementation only): non-negativity and row sums 1 inside the bounds, column count = df, equality
-with an independent textbook Cox–de Boor evaluation in Fractions, each extrapolation mode's documented
-behaviour, null in -> null row out; for cr/cc: identity at the knots, equality with SciPy's natural /
-periodic interpolating cubic splines (cardinal basis), zero column means under 'center'.  For a history the
-single-use oracle is applied to every use with the knots / df / bounds THE USER GAVE (recorded interior knots =
-the given knots, column count = len(knots) + degree + intercept), not with whatever the transform recorded.
+with an independent textbook Cox–de Boor evaluation in Fractions on the knot vector THE ARGUMENTS DENOTE (explicit
+knots: the bounds padded around the given knots in ascending order, whatever the transform recorded), each
+extrapolation mode's documented behaviour (omitted: the documented defaults 'raise' / 'extend'), null in -> null row
+out; for cr/cc: recorded knots = the distinct given knots and bounds in ascending order, identity at the knots,
+equality with SciPy's natural / periodic interpolating cubic splines (cardinal basis), zero column means under
+'center'; explicit knots listed in another order (cr/cc: with repeats) give the same state and values as the same
+knots ascending.  Given states and helpers: the same reference splines; `_map_cyclic` maps into the interval by whole
+periods; `_get_all_sorted_knots` returns the distinct sorted knots / the equally spaced percentiles.  For a history
+the single-use oracle is applied to every use with the knots / df / bounds THE USER GAVE, not with whatever the
+transform recorded.
 """
 from __future__ import annotations
 
@@ -64,19 +84,49 @@ REQUIRED_THEOREMS = [
     "cc_glued_pieces_C2_real",
     "centered_columns_zero_mean",
     "centered_columns_zero_mean_nulls",
+    "cr_F_unique",
+    "cc_F_unique",
+    "cr_interpolant_unique",
+    "cr_column_is_natural_spline",
+    "cc_interpolant_unique",
+    "spline_tables_documented",
+    "cs_entry_refines_fit",
+    "bs_entry_refines_fit",
+    "cs_rejects",
+    "cs_unreachable_exits",
+    "cs_accepted_knots",
+    "cs_explicit_knots_order_irrelevant",
+    "bs_explicit_knots_order_irrelevant",
+    "quantile_knots",
+    "bs_df_knots_admissible",
+    "cs_df_knots_never_collide",
+    "cs_ncols",
+    "cs_numeric_part_total",
+    "solveF_is_the_solution",
+    "cr_F_exists_unique",
+    "cc_F_exists_unique",
+    "bs_accepted_call_partition_of_unity",
+    "bs_ncols_exact",
+    "cs_accepted_call_is_cardinal_basis",
 ]
 TRUSTED = [
-    "parameters of the model (results of external numerical routines, taken from the implementation per case; "
-    "their contracts are checked numerically per case, not proved): numpy.nanquantile/nanpercentile (knots = "
-    "linear-interpolation quantiles of the sample), scipy.linalg.solve_banded / numpy.linalg.solve (B.F = D), "
-    "numpy.linalg.qr (c.Q2 = 0, Q2 orthonormal)",
+    "parameters of the model (results of external numerical routines, taken from the implementation per case; their "
+    "contracts are checked numerically per case, not proved): numpy.linalg.qr (c.Q2 = 0 exactly as a residual, Q2 "
+    "orthonormal); the float quantile knots of numpy.nanquantile/nanpercentile (used for evaluating the rows; required "
+    "to agree at 1e-9 with the exact quantile knots the model computes itself)",
+    "scipy.linalg.solve_banded / numpy.linalg.solve are no longer parameters: the model solves B.X = D exactly "
+    "(Model/SplineSolve.lean) and returns F only with its certificate; the implementation's F must agree with it at "
+    "1e-9 (scaled).  That the exact elimination never meets a zero pivot is not proved (a solver failure is reported "
+    "as a disagreement)",
     "float rounding is not modelled: the model evaluates exactly in Rat on the implementation's (dyadic) floats; "
     "agreement is at 1e-9 relative to max(1,|value|)",
-    "the cubic-spline interpolation theorems (cr_is_natural_interpolant, cc_is_periodic_interpolant) assume the contract "
-    "B.F = D EXACTLY (AllZero (residualF ...)); on the implementation's floating-point F the same residual is computed exactly "
-    "by the model per case and required to be < 1e-8 (scaled), and the implementation is additionally compared with "
-    "scipy.interpolate.CubicSpline by the oracle",
-    "numpy.searchsorted is modelled for ascending knot arrays (count of knots < x)",
+    "numpy.searchsorted is modelled for ascending knot arrays (count of knots < x); numpy.unique as sort + "
+    "de-duplication; numpy.atleast_1d/atleast_2d/ndim through the array shape the harness reports (0-d, 1-d, column, "
+    "wider 2-d, >= 3-d)",
+    "which raise statement fired is read from key phrases of the error message (harness/props/c12.py: "
+    "REASON_PHRASES); an unrecognised message is compared by exception class only",
+    "harness/translate.py: gen_spline_table (Gen/SplineTable.lean: SplineExtrapolation members, signature defaults, "
+    "TRANSFORMS aliases with their functools.partial presets)",
     "histories through the formula entry points: formula parsing, context lookup, column naming `name[k]` and assembly of "
     "the model matrix are not modelled (C01-C03); the harness reads each term's block of columns by its name prefix and its "
     "recorded state from ModelSpec.transform_state, with ensure_full_rank=False and na_action='ignore' so that the block is "
@@ -84,22 +134,35 @@ TRUSTED = [
 ]
 ASSUMPTIONS = [
     "bs theorems about values (partition of unity, non-negativity, local support, zero/extend modes) assume interior "
-    "knots non-decreasing inside [lower, upper] (KnotsOk); bs_eq_coxdeboor holds for any knot list",
-    "cr/cc identity at knots assumes strictly increasing knots (guaranteed by numpy.unique + the size check) and F of shape n x n",
-    "input vectors contain at least one non-null value; all-null / empty samples are outside the model (Err.noData)",
+    "knots non-decreasing inside [lower, upper] (KnotsOk); bs_eq_coxdeboor holds for any knot list.  KnotsOk is PROVED "
+    "for accepted df calls (bs_df_knots_admissible: modes raise/clip/na/zero; extend only when the data lie inside the "
+    "bounds - the code takes the quantiles of all the data in that mode) and for explicit knots inside the bounds "
+    "(sorted by the code)",
+    "cr/cc theorems assume strictly increasing knots, at least two: PROVED for every accepted call (cs_accepted_knots); "
+    "F of the right shape satisfying B.F = D: exists and is unique for such knots (cr/cc_F_exists_unique), and is what "
+    "the model's solveF returns (solveF_is_the_solution)",
+    "input vectors contain at least one non-null value, or are empty; all-null samples are outside the model (noData)",
+    "bs with a column-shaped / 2-d x is not modelled (cubic_spline's shapes are)",
 ]
 RULE = (
-    "bs: x over dyadic rationals (multiples of 1/8 in [-2,4], ties, nulls) x degree 0..5 x (df | explicit interior knots incl. "
-    "repeated and equal to a bound | neither) x bounds (none | explicit, incl. narrower than the data and lower=upper) x "
-    "include_intercept x 5 extrapolation modes, plus a second call on new data with the recorded state; malformed stream: df and "
-    "knots together, df too small, empty in-range sample, unsorted / out-of-bounds explicit knots. cs: natural/cyclic x (df | "
-    "explicit knots) x constraints none/'center'/explicit x bounds x modes x second call. non-trivial = at least one interior "
-    "knot or degree >= 1 (bs) / any cs case; distinct by canonical JSON. histories (300 quick / 5000 thorough, after the "
-    "single-use stream): the same argument generators (explicit knots in 3 of 4) x 1-3 uses on different data (same range as "
-    "the first use in 7 of 10 when the bounds come from the data) x knots container list/tuple/ndarray/formula literal, shared "
-    "by all uses x entry point (direct calls with fresh state, x as ndarray or pandas Series | the terms of one model_matrix "
-    "call | successive model_matrix calls; formula entry points with ensure_full_rank=False, na_action='ignore', all other "
-    "arguments through the context) x new data per use through the recorded state / ModelSpec.get_model_matrix"
+    "bs: x over dyadic rationals (multiples of 1/8 in [-2,4], ties, nulls, empty) x degree 0..5 (and negative) x (df | explicit "
+    "interior knots in ANY order incl. repeated and equal to a bound | neither) x bounds (none | explicit, incl. narrower than the "
+    "data and lower=upper) x include_intercept x 5 extrapolation modes (string or enum member; non-members) x call form (direct | "
+    "TRANSFORMS alias; arguments passed or omitted), plus a second call on new data with the recorded state; malformed stream: df "
+    "and knots together, df too small, empty in-range sample, out-of-bounds explicit knots. cs: natural/cyclic x (df | explicit "
+    "knots in any order, with repeats, equal to a bound, below / above the bounds | neither) x constraints none/'center'/other "
+    "strings/arrays of rank 0..3 x bounds (incl. lower > upper) x modes x x-shape (vector, column, matrix, cube, scalar) x call form "
+    "(cubic_spline | cr | cs | cc, cyclic passed or preset) x second call. For explicit knots not already ascending (cr/cc: or "
+    "repeated) the same call with the knots ascending is observed too. given states (300 quick / 4000 thorough): strictly "
+    "increasing knots, optional constraint row, all modes and x-shapes, a few cyclic states with coinciding knots. helpers (500 / "
+    "6000): _map_cyclic (incl. empty interval), _get_all_sorted_knots (all argument combinations, negative counts, mismatched "
+    "counts, unsorted/repeated inner knots), _compute_base_functions. non-trivial = at least one interior knot or degree >= 1 (bs) "
+    "/ any other case; distinct by canonical JSON. histories (300 quick / 5000 thorough): the same argument generators (explicit "
+    "knots in 3 of 4) x 1-3 uses on different data (same range as the first use in 7 of 10 when the bounds come from the data) x "
+    "knots container list/tuple/ndarray/formula literal, shared by all uses x entry point (direct calls with fresh state, x as "
+    "ndarray or pandas Series | the terms of one model_matrix call | successive model_matrix calls; formula entry points with "
+    "ensure_full_rank=False, na_action='ignore', all other arguments through the context) x new data per use through the recorded "
+    "state / ModelSpec.get_model_matrix"
 )
 TOL = 1e-9
 MODES = ["raise", "clip", "na", "zero", "extend"]
@@ -136,7 +199,66 @@ def cell(v):
 
 
 def err_class(e):
-    return "ValueError" if isinstance(e, ValueError) else type(e).__name__
+    """the exception class as the library names it (ExtrapolationError is a ValueError subclass of cubic_spline.py;
+    numpy's own ValueError subclasses, e.g. AxisError, count as ValueError)"""
+    n = type(e).__name__
+    if n == "ExtrapolationError":
+        return n
+    return "ValueError" if isinstance(e, ValueError) else n
+
+
+# which `raise` statement an error message belongs to (stable key phrases; a reworded message is simply not
+# recognised and then only the exception class is compared)
+REASON_PHRASES = [
+    ("bothDfKnots", "cannot specify both"),
+    ("notOneDim", "must be 1-d"),
+    ("neitherDfKnots", "must specify either 'df' or 'knots'"),
+    ("badConstraintStr", "constraints must be 'center'"),
+    ("constraintNdim", "constraints must be 2-d array"),
+    ("dfTooSmallCs", "must be greater than or equal to"),
+    ("lowerGtUpper", "lower_bound > upper_bound"),
+    ("negInner", "invalid requested number of inner knots"),
+    ("noDataForKnots", "no data values between"),
+    ("knotCount", "does not match"),
+    ("knotsBelow", "below lower bound"),
+    ("knotsAbove", "above upper bound"),
+    ("neitherInner", "must specify either 'n_inner_knots'"),
+    ("notDistinct", "unable to compute"),
+    ("constraintCols", "constraints array should have"),
+    ("mapCyclic", "should be less than ubound"),
+    ("badMode", "is not a valid splineextrapolation"),
+    ("emptyData", "zero-size array"),
+    ("dfTooSmallBs", "invalid value for `df`"),
+    ("emptySample", "no data points are available"),
+    ("negDegree", "index can't contain negative values"),
+]
+
+
+def err_info(e):
+    """class of the exception and (diagnostic + reason tag) the start of its message"""
+    msg = str(e)[:200]
+    low = msg.lower()
+    tag = None
+    if type(e).__name__ == "ExtrapolationError":
+        tag = "extrapolationCs"
+    elif "extend beyond upper and/or lower bounds" in low:
+        tag = "outOfBoundsBs"
+    else:
+        hits = [t for t, ph in REASON_PHRASES if ph in low]
+        tag = hits[0] if len(hits) == 1 else None
+    return dict(error=err_class(e), msg=msg, tag=tag)
+
+
+def _cmp_reason(o, m):
+    """both sides raise the same class: do they raise at the same check? (only when the message is recognised)"""
+    tag, reason = o.get("tag"), str(m.get("reason", ""))
+    if tag is None or not reason:
+        return None
+    name = reason.split(".")[-1].split(" ")[0].strip("()")
+    if name in ("inner", "noData") or name == tag:
+        return None
+    return (f"both raise {o['error']}, but the implementation at the check '{tag}' ({o.get('msg')!r}) and the model at "
+            f"'{name}': the checks are made in a different order or with a different condition")
 
 
 def close(a, b, tol=TOL):
@@ -167,15 +289,15 @@ def gen_x(rng, nmin=1, nmax=12, lo=-16, hi=32, nulls=True):
     n = rng.randint(nmin, nmax)
     pool = [dy(rng, lo, hi) for _ in range(rng.randint(1, max(1, n)))]
     xs = [rng.choice(pool) for _ in range(n)]
-    if nulls and rng.random() < 0.35:
+    if n and nulls and rng.random() < 0.35:
         for _ in range(rng.randint(1, 2)):
             xs[rng.randrange(n)] = None
-    if all(v is None for v in xs):
+    if n and all(v is None for v in xs):
         xs[0] = dy(rng, lo, hi)
     return xs
 
 
-def gen_bs(rng):
+def gen_bs_plain(rng):
     degree = rng.choice([0, 1, 1, 2, 2, 3, 3, 3, 4, 5])
     intercept = rng.random() < 0.5
     mode = rng.choice(MODES)
@@ -215,9 +337,10 @@ def gen_bs(rng):
                 ks.sort()
         else:
             ks = []
+        if len(ks) > 1 and rng.random() < 0.35:
+            rng.shuffle(ks)  # listed in another order than ascending: the same breakpoints
         if rng.random() < 0.06 and ks:
-            rng.shuffle(ks)  # malformed: unsorted
-            ks[0] = ks[0] + 5  # and out of bounds
+            ks[0] = ks[0] + 5  # malformed: out of bounds
         knots = [fs(q) for q in ks]
     if rng.random() < 0.02:
         df, knots = 4, []  # malformed: both
@@ -228,7 +351,7 @@ def gen_bs(rng):
                 lower=lower, upper=upper, mode=mode, x2=x2)
 
 
-def gen_cs(rng):
+def gen_cs_plain(rng):
     cyclic = rng.random() < 0.5
     mode = rng.choice(["extend", "extend", "raise", "clip", "na", "zero"])
     x = gen_x(rng, 3, 14)
@@ -252,8 +375,17 @@ def gen_cs(rng):
         k = rng.randint(0, 4)
         span = hi - lo
         ks = sorted(set(lo + span * Fraction(rng.randint(1, 15), 16) for _ in range(k)))
+        if ks and rng.random() < 0.45:
+            # the same set of breakpoints listed with repeats and / or not in ascending order
+            if rng.random() < 0.6:
+                ks = ks + [rng.choice(ks) for _ in range(rng.randint(1, 2))]
+            ks.sort()
+            if rng.random() < 0.75:
+                rng.shuffle(ks)
         if rng.random() < 0.05 and ks:
             ks[0] = lo - 1  # malformed: below the lower bound
+        elif rng.random() < 0.04:
+            ks.append(rng.choice([lo, hi]))  # a knot equal to a bound: fewer distinct knots than requested
         knots = [fs(q) for q in ks]
         ncols = len(set(ks)) + 2 - (1 if cyclic else 0)
     if cons == "matrix":
@@ -273,6 +405,168 @@ def gen_cs(rng):
                 cyclic=cyclic, mode=mode, x2=x2)
 
 
+# ---- the call as the user writes it: omitted arguments, TRANSFORMS aliases, array shapes, malformed arguments
+
+BS_DOC_DEFAULTS = dict(df=None, knots=None, degree=3, intercept=False, lower=None, upper=None, mode="raise")
+CS_DOC_DEFAULTS = dict(df=None, knots=None, lower=None, upper=None, constraints=None, cyclic=False, mode="extend")
+BAD_MODES = ["linear", "Raise", "EXTEND", "", "nan", "clip "]
+
+
+def gen_bs(rng):
+    c = gen_bs_plain(rng)
+    r = rng.random()
+    if r < 0.12:
+        # valid variations of the call form: through the TRANSFORMS alias, with arguments left to their defaults
+        c["via"] = rng.choice([None, "bs"])
+        omit = [k for k in ("degree", "intercept", "mode", "df", "knots", "lower", "upper") if rng.random() < 0.35]
+        for k in omit:
+            c[k] = BS_DOC_DEFAULTS[k]
+        c["omit"] = sorted(omit)
+        if "mode" not in omit and rng.random() < 0.3:
+            c["mode_enum"] = True
+    elif r < 0.16:
+        c["mode"] = rng.choice(BAD_MODES)  # malformed: not a member of SplineExtrapolation
+    elif r < 0.18:
+        c["degree"] = rng.choice([-1, -1, -2])  # malformed: negative degree
+    elif r < 0.20:
+        c["x"] = []  # empty data (bounds from the data: numpy.nanmin raises; explicit bounds: an empty basis)
+    return c
+
+
+def gen_cs(rng):
+    c = gen_cs_plain(rng)
+    r = rng.random()
+    if r < 0.14:
+        # valid variations of the call form
+        c["via"] = rng.choice([None, "cc" if c["cyclic"] else rng.choice(["cr", "cs"]), rng.choice(["cr", "cs", "cc"])])
+        omit = [k for k in ("mode", "constraints", "lower", "upper") if rng.random() < 0.35]
+        if c["via"] is not None and rng.random() < 0.7:
+            omit.append("cyclic")
+            c["cyclic"] = c["via"] == "cc"
+        elif c["via"] is None and rng.random() < 0.3:
+            omit.append("cyclic")
+            c["cyclic"] = False
+        for k in omit:
+            if k != "cyclic":
+                c[k] = CS_DOC_DEFAULTS[k]
+        c["omit"] = sorted(omit)
+        if "mode" not in omit and rng.random() < 0.3:
+            c["mode_enum"] = True
+        if rng.random() < 0.5:
+            c["xshape"] = "col"
+        if c["x2"] is not None and rng.random() < 0.3:
+            c["x2shape"] = "col"
+        if isinstance(c["constraints"], list) and rng.random() < 0.5:
+            c["constraints"] = dict(ndim=1, rows=c["constraints"])  # a 1-d vector instead of a 1 x n matrix
+    elif r < 0.17:
+        c["mode"] = rng.choice(BAD_MODES)
+    elif r < 0.20:
+        c["xshape"] = rng.choice(["mat", "cube", "cube"])  # malformed: not 1-d / a column
+    elif r < 0.22:
+        c["xshape"] = "scalar"
+        c["x"] = [next(v for v in c["x"] if v is not None)]
+    elif r < 0.245:
+        c["constraints"] = rng.choice(["centre", "Center", "", "none"])  # malformed: a string other than 'center'
+    elif r < 0.27:
+        rows = c["constraints"] if isinstance(c["constraints"], list) else [[str(rng.randint(-2, 3)) for _ in range(rng.randint(1, 4))]]
+        c["constraints"] = dict(ndim=rng.choice([3, 3, 0]), rows=rows if rng.random() < 0.8 else [[rows[0][0]]])
+        if c["constraints"]["ndim"] == 0:
+            c["constraints"]["rows"] = [[rows[0][0]]]
+    elif r < 0.29:
+        c["df"] = c["knots"] = None  # malformed: neither df nor knots
+    elif r < 0.31 and c["lower"] is not None:
+        c["lower"], c["upper"] = c["upper"], c["lower"]  # malformed: lower_bound > upper_bound
+    elif r < 0.335 and c["knots"]:
+        vals = [Fraction(v) for v in c["x"] if v is not None]
+        hi = Fraction(c["upper"]) if c["upper"] is not None else max(vals)
+        ks = [Fraction(k) for k in c["knots"]]
+        ks[-1] = hi + Fraction(rng.randint(1, 8), 8)  # malformed: above the upper bound
+        c["knots"] = [fs(k) for k in ks]
+    elif r < 0.35:
+        c["x"] = []
+    return c
+
+
+def gen_state(rng):
+    """cubic_spline on a `_state` that the caller supplies (restored from a saved spec, or written by hand):
+    bounds = first / last knot, strictly increasing knots, optional constraint matrix; a few cyclic states whose
+    knots all coincide (where `_map_cyclic` has to refuse)."""
+    cyclic = rng.random() < 0.5
+    nk = rng.randint(2, 6)
+    ks = sorted(set(Fraction(rng.randint(-8, 24), 8) for _ in range(nk)))
+    if len(ks) < 2:
+        ks = [ks[0], ks[0] + Fraction(rng.randint(1, 16), 8)]
+    degenerate = cyclic and rng.random() < 0.06
+    if degenerate:
+        ks = [ks[0]] * rng.choice([1, 2, 3])
+    n = len(ks) - (1 if cyclic else 0)
+    cons = None
+    if not degenerate and rng.random() < 0.4:
+        row = [str(rng.randint(-2, 3)) for _ in range(n)]
+        if all(v == "0" for v in row):
+            row[0] = "1"
+        cons = [row]
+    mode = rng.choice(["extend", "extend", "raise", "clip", "na", "zero"])
+    omit = []
+    if rng.random() < 0.2:
+        mode, omit = "extend", ["mode"]
+    elif rng.random() < 0.04:
+        mode = rng.choice(BAD_MODES)
+    xshape = "vec"
+    r = rng.random()
+    if r < 0.15:
+        xshape = "col"
+    elif r < 0.19:
+        xshape = rng.choice(["mat", "cube"])
+    x = gen_x(rng, 1, 10)
+    if rng.random() < 0.05:
+        x = [None] * len(x) if rng.random() < 0.5 else []
+    return dict(kind="state", x=x, xshape=xshape, mode=mode, omit=omit,
+                state=dict(lower=fs(ks[0]), upper=fs(ks[-1]), knots=[fs(k) for k in ks], cyclic=cyclic, constraints=cons))
+
+
+def gen_helper(rng):
+    """the module-level helpers of cubic_spline.py called directly, with arguments cubic_spline itself never
+    produces (all error exits of `_get_all_sorted_knots`, `_map_cyclic` with an empty interval)"""
+    r = rng.random()
+    if r < 0.3:
+        a, b = Fraction(rng.randint(-8, 24), 8), Fraction(rng.randint(-8, 24), 8)
+        if rng.random() < 0.85:
+            a, b = min(a, b), max(a, b)
+            if a == b and rng.random() < 0.7:
+                b = a + Fraction(rng.randint(1, 16), 8)
+        x = [v for v in gen_x(rng, 0, 8, -40, 56, nulls=False)]
+        return dict(kind="helper", fn="map_cyclic", x=x, lb=fs(a), ub=fs(b))
+    if r < 0.75:
+        x = gen_x(rng, 0, 10)
+        a, b = sorted([Fraction(rng.randint(-8, 24), 8), Fraction(rng.randint(-8, 24), 8)])
+        if a == b and rng.random() < 0.8:
+            b = a + Fraction(rng.randint(1, 16), 8)
+        if rng.random() < 0.06:
+            a, b = b, a
+        n_inner = inner = None
+        q = rng.random()
+        if q < 0.45:
+            n_inner = rng.choice([0, 1, 1, 2, 2, 3, 4, -1, -2])
+        elif q < 0.85:
+            k = rng.randint(0, 4)
+            span = abs(b - a)
+            inner = [fs(min(a, b) + span * Fraction(rng.randint(-2, 18), 16)) for _ in range(k)]
+            if rng.random() < 0.35:
+                n_inner = rng.choice([len(set(inner)), len(inner), k + 1, 0])
+        elif q < 0.93:
+            n_inner, inner = rng.randint(0, 3), []
+        return dict(kind="helper", fn="sorted_knots", x=x, lower=fs(a), upper=fs(b), n_inner=n_inner, inner=inner)
+    nk = rng.randint(2, 6)
+    ks = sorted(set(Fraction(rng.randint(-8, 24), 8) for _ in range(nk)))
+    if len(ks) < 2:
+        ks = [ks[0], ks[0] + Fraction(rng.randint(1, 16), 8)]
+    x = gen_x(rng, 1, 8, -24, 40, nulls=False)
+    if rng.random() < 0.5:
+        x[rng.randrange(len(x))] = fs(rng.choice(ks))
+    return dict(kind="helper", fn="base", x=x, knots=[fs(k) for k in ks])
+
+
 KCONTS = ["list", "list", "list", "tuple", "ndarray"]
 
 
@@ -284,7 +578,7 @@ def gen_hist(rng):
     fam = "bs" if rng.random() < 0.65 else "cs"
     want_knots = rng.random() < 0.75
     for _ in range(8):
-        base = gen_bs(rng) if fam == "bs" else gen_cs(rng)
+        base = gen_bs_plain(rng) if fam == "bs" else gen_cs_plain(rng)
         if (base["knots"] is not None) == want_knots and not (base["df"] is not None and base["knots"] is not None):
             break
     entry = rng.choice(["direct", "terms", "terms", "calls", "calls"])
@@ -327,10 +621,13 @@ def subcases(c):
 def cases(rng, tier):
     n = {"quick": 3000, "thorough": 50000, "search": 150}[tier]
     for i in range(n):
-        yield gen_bs(rng) if rng.random() < 0.6 else gen_cs(rng)
-    # histories come after the single-use stream (which therefore is unchanged for a given seed)
+        yield gen_bs(rng) if rng.random() < 0.55 else gen_cs(rng)
     for i in range({"quick": 300, "thorough": 5000, "search": 60}[tier]):
         yield gen_hist(rng)
+    for i in range({"quick": 300, "thorough": 4000, "search": 40}[tier]):
+        yield gen_state(rng)
+    for i in range({"quick": 500, "thorough": 6000, "search": 60}[tier]):
+        yield gen_helper(rng)
 
 
 def describe(c):
@@ -339,18 +636,31 @@ def describe(c):
         fam = "bs" if c["fam"] == "bs" else ("cc" if a["cyclic"] else "cr")
         how = "df" if a["df"] is not None else ("knots:" + c["kcont"] if a["knots"] is not None else "plain")
         return f"hist:{fam},{c['entry']}x{len(c['uses'])},{how}"
+    if c["kind"] == "state":
+        return f"state:{'cc' if c['state']['cyclic'] else 'cr'},{c['mode'] if c['mode'] in MODES else 'badmode'},{c.get('xshape', 'vec')}"
+    if c["kind"] == "helper":
+        return f"helper:{c['fn']}"
+    form = ("" if not c.get("via") else ",via=" + c["via"]) + ("" if not c.get("omit") else ",omit")
+    mode = c["mode"] if c["mode"] in MODES else "badmode"
     if c["kind"] == "bs":
         how = "df" if c["df"] is not None else ("knots" if c["knots"] is not None else "plain")
-        return f"bs,d={c['degree']},{how},{c['mode']}"
-    how = "df" if c["df"] is not None else "knots"
-    cons = "none" if c["constraints"] is None else ("center" if c["constraints"] == "center" else "matrix")
-    return f"{'cc' if c['cyclic'] else 'cr'},{how},{cons},{c['mode']}"
+        if _reordered(c) is not None:
+            how = "knots-unsorted"
+        return f"bs,d={c['degree']},{how},{mode}{form}"
+    how = "df" if c["df"] is not None else ("knots" if c["knots"] is not None else "neither")
+    if _reordered(c) is not None:
+        how = "knots-unsorted/repeated"
+    k = c["constraints"]
+    cons = "none" if k is None else (k if k == "center" else ("badstr" if isinstance(k, str) else
+                                                              ("matrix" if isinstance(k, list) else f"array{k['ndim']}d")))
+    shape = "" if c.get("xshape", "vec") == "vec" else "," + c["xshape"]
+    return f"{'cc' if c['cyclic'] else 'cr'},{how},{cons},{mode}{shape}{form}"
 
 
 def nontrivial(c):
     if c["kind"] == "hist":
         return any(nontrivial(s) for s in subcases(c))
-    if c["kind"] == "cs":
+    if c["kind"] in ("cs", "state", "helper"):
         return True
     return c["degree"] >= 1 or bool(c["knots"]) or (c["df"] or 0) > 1
 
@@ -365,23 +675,50 @@ def _cols_rows(res, n):
     return keys, rows
 
 
-def impl_bs(c):
-    from formulaic.transforms.basis_spline import basis_spline
+def _mode_arg(c):
+    if c.get("mode_enum"):
+        from formulaic.transforms.basis_spline import SplineExtrapolation
 
+        return SplineExtrapolation(c["mode"])
+    return c["mode"]
+
+
+def _bs_kw(c, knots=None):
+    """keyword arguments of the call as the user writes it (omitted arguments are not passed)"""
+    ks = c["knots"] if knots is None else knots
     kw = dict(
         df=c["df"],
-        knots=None if c["knots"] is None else [fl(k) for k in c["knots"]],
+        knots=None if ks is None else [fl(k) for k in ks],
         degree=c["degree"],
         include_intercept=c["intercept"],
         lower_bound=None if c["lower"] is None else fl(c["lower"]),
         upper_bound=None if c["upper"] is None else fl(c["upper"]),
-        extrapolation=c["mode"],
+        extrapolation=_mode_arg(c),
     )
+    names = dict(df="df", knots="knots", degree="degree", intercept="include_intercept", lower="lower_bound",
+                 upper="upper_bound", mode="extrapolation")
+    for k in c.get("omit") or []:
+        kw.pop(names[k])
+    return kw
+
+
+def _bs_fn(c):
+    if c.get("via"):
+        from formulaic.transforms import TRANSFORMS
+
+        return TRANSFORMS[c["via"]]
+    from formulaic.transforms.basis_spline import basis_spline
+
+    return basis_spline
+
+
+def _bs_call(c, kw):
+    fn = _bs_fn(c)
     st = {}
     try:
-        res = basis_spline(arr(c["x"]), _state=st, **kw)
+        res = fn(arr(c["x"]), _state=st, **kw)
     except Exception as e:
-        return dict(error=err_class(e))
+        return err_info(e)
     keys, rows = _cols_rows(res, len(c["x"]))
     out = dict(
         state=dict(lower=ffs(st["lower_bound"]), upper=ffs(st["upper_bound"]), knots=[ffs(k) for k in st["knots"]]),
@@ -391,7 +728,7 @@ def impl_bs(c):
     if c["x2"] is not None:
         st2 = copy.deepcopy(st)
         try:
-            res2 = basis_spline(arr(c["x2"]), _state=st2, **kw)
+            res2 = fn(arr(c["x2"]), _state=st2, **kw)
             k2, r2 = _cols_rows(res2, len(c["x2"]))
             out["second"] = dict(cols=[int(k) for k in k2], rows=r2)
         except Exception as e:
@@ -399,46 +736,122 @@ def impl_bs(c):
     return out
 
 
-def impl_cs(c):
-    import formulaic.transforms.cubic_spline as CS
+def _reordered(c):
+    """explicit knots that are not listed in ascending order (or, for cr/cc, with repeats)"""
+    ks = c.get("knots")
+    if not ks:
+        return None
+    q = [Fraction(k) for k in ks]
+    asc = sorted(q) if c["kind"] == "bs" else sorted(set(q))
+    return None if q == asc else [fs(k) for k in asc]
 
-    cons = c["constraints"]
-    if isinstance(cons, list):
-        cons = numpy.array([[fl(v) for v in row] for row in cons], dtype=float)
+
+def impl_bs(c):
+    out = _bs_call(c, _bs_kw(c))
+    asc = _reordered(c)
+    if asc is not None:
+        # the same breakpoints listed in ascending order (observable for the order-independence clause)
+        out["ascending"] = _bs_call(c, _bs_kw(c, asc))
+    return out
+
+
+def shaped(xs, shape):
+    a = arr(xs)
+    if shape == "col":
+        return a.reshape((-1, 1))
+    if shape == "mat":
+        return numpy.column_stack([a, a])
+    if shape == "cube":
+        return a.reshape((-1, 1, 1))
+    if shape == "scalar":
+        return numpy.float64(a[0])
+    return a
+
+
+def _cons_arg(cons):
+    if cons is None or isinstance(cons, str):
+        return cons
+    if isinstance(cons, dict):
+        m = numpy.array([[fl(v) for v in row] for row in cons["rows"]], dtype=float)
+        nd = cons["ndim"]
+        if nd == 0:
+            return numpy.float64(m[0, 0])
+        if nd == 1:
+            return m[0]
+        if nd == 3:
+            return m.reshape((1,) + m.shape)
+        return m
+    return numpy.array([[fl(v) for v in row] for row in cons], dtype=float)
+
+
+def _cs_kw(c, knots=None):
+    ks = c["knots"] if knots is None else knots
     kw = dict(
         df=c["df"],
-        knots=None if c["knots"] is None else [fl(k) for k in c["knots"]],
+        knots=None if ks is None else [fl(k) for k in ks],
         lower_bound=None if c["lower"] is None else fl(c["lower"]),
         upper_bound=None if c["upper"] is None else fl(c["upper"]),
-        constraints=cons,
+        constraints=_cons_arg(c["constraints"]),
         cyclic=c["cyclic"],
-        extrapolation=c["mode"],
+        extrapolation=_mode_arg(c),
     )
-    rec = {}
-    o_nat, o_cyc, o_qr = CS._get_natural_f, CS._get_cyclic_f, numpy.linalg.qr
+    names = dict(df="df", knots="knots", lower="lower_bound", upper="upper_bound", constraints="constraints",
+                 cyclic="cyclic", mode="extrapolation")
+    for k in c.get("omit") or []:
+        kw.pop(names[k])
+    return kw
 
-    def nat(k):
-        r = o_nat(k)
-        rec["F"] = numpy.array(r)
-        return r
 
-    def cyc(k):
-        r = o_cyc(k)
-        rec["F"] = numpy.array(r)
-        return r
+def _cs_fn(c, CS):
+    if c.get("via"):
+        from formulaic.transforms import TRANSFORMS
 
-    def qr(a, mode="reduced"):
-        q, r = o_qr(a, mode=mode)
-        rec["Q2"] = numpy.array(q)[:, numpy.asarray(a).shape[1]:]
-        return q, r
+        return TRANSFORMS[c["via"]]
+    return CS.cubic_spline
 
-    CS._get_natural_f, CS._get_cyclic_f, numpy.linalg.qr = nat, cyc, qr
-    try:
+
+class _CsRec:
+    """records the F and Q2 computed inside one cubic_spline call"""
+
+    def __enter__(self):
+        import formulaic.transforms.cubic_spline as CS
+
+        self.CS, self.rec = CS, {}
+        self.saved = (CS._get_natural_f, CS._get_cyclic_f, numpy.linalg.qr)
+        o_nat, o_cyc, o_qr = self.saved
+        rec = self.rec
+
+        def nat(k):
+            r = o_nat(k)
+            rec["F"] = numpy.array(r)
+            return r
+
+        def cyc(k):
+            r = o_cyc(k)
+            rec["F"] = numpy.array(r)
+            return r
+
+        def qr(a, mode="reduced"):
+            q, r = o_qr(a, mode=mode)
+            rec["Q2"] = numpy.array(q)[:, numpy.asarray(a).shape[1]:]
+            return q, r
+
+        CS._get_natural_f, CS._get_cyclic_f, numpy.linalg.qr = nat, cyc, qr
+        return self
+
+    def __exit__(self, *a):
+        self.CS._get_natural_f, self.CS._get_cyclic_f, numpy.linalg.qr = self.saved
+
+
+def _cs_call(c, kw):
+    with _CsRec() as h:
+        CS, rec = h.CS, h.rec
+        fn = _cs_fn(c, CS)
         st = {}
         try:
-            res = CS.cubic_spline(arr(c["x"]), _state=st, **kw)
+            res = fn(shaped(c["x"], c.get("xshape", "vec")), _state=st, **kw)
         except Exception as e:
-            return dict(error=err_class(e))
+            return err_info(e)
         keys, rows = _cols_rows(res, len(c["x"]))
         carr = st["constraints"]
         out = dict(
@@ -460,20 +873,73 @@ def impl_cs(c):
             out["orth"] = float(numpy.abs(q2.T @ q2 - numpy.eye(q2.shape[1])).max()) if q2.shape[1] else 0.0
         # rows at the recorded knots (identity-at-knots observable)
         try:
-            resk = CS.cubic_spline(numpy.array(st["knots"], dtype=float), _state=copy.deepcopy(st), **kw)
+            resk = fn(numpy.array(st["knots"], dtype=float), _state=copy.deepcopy(st), **kw)
             out["at_knots"] = _cols_rows(resk, len(st["knots"]))[1]
         except Exception as e:
             out["at_knots"] = dict(error=err_class(e))
         if c["x2"] is not None:
             try:
-                res2 = CS.cubic_spline(arr(c["x2"]), _state=copy.deepcopy(st), **kw)
+                res2 = fn(shaped(c["x2"], c.get("x2shape", "vec")), _state=copy.deepcopy(st), **kw)
                 k2, r2 = _cols_rows(res2, len(c["x2"]))
                 out["second"] = dict(ncols=len(k2), rows=r2)
             except Exception as e:
                 out["second"] = dict(error=err_class(e))
         return out
-    finally:
-        CS._get_natural_f, CS._get_cyclic_f, numpy.linalg.qr = o_nat, o_cyc, o_qr
+
+
+def impl_cs(c):
+    out = _cs_call(c, _cs_kw(c))
+    asc = _reordered(c)
+    if asc is not None:
+        out["ascending"] = _cs_call(c, _cs_kw(c, asc))
+    return out
+
+
+def impl_state(c):
+    """cubic_spline on a state supplied by the caller"""
+    st0 = c["state"]
+    carr = None if st0["constraints"] is None else numpy.array([[fl(v) for v in row] for row in st0["constraints"]], dtype=float)
+    st = dict(lower_bound=fl(st0["lower"]), upper_bound=fl(st0["upper"]), knots=[fl(k) for k in st0["knots"]],
+              cyclic=st0["cyclic"], constraints=carr)
+    kw = {} if "mode" in (c.get("omit") or []) else dict(extrapolation=c["mode"])
+    with _CsRec() as h:
+        try:
+            res = h.CS.cubic_spline(shaped(c["x"], c.get("xshape", "vec")), _state=st, **kw)
+        except Exception as e:
+            return err_info(e)
+        keys, rows = _cols_rows(res, len(c["x"]))
+        rec = h.rec
+        out = dict(
+            first=dict(ncols=len(keys), keys=[int(k) for k in keys], rows=rows),
+            F=None if "F" not in rec else [[ffs(v) for v in row] for row in rec["F"]],
+            Q2=None if "Q2" not in rec else [[ffs(v) for v in col] for col in rec["Q2"].T],
+            state_after=dict(lower=ffs(st["lower_bound"]), upper=ffs(st["upper_bound"]), knots=[ffs(k) for k in st["knots"]]),
+        )
+        if "Q2" in rec:
+            q2 = rec["Q2"]
+            out["orth"] = float(numpy.abs(q2.T @ q2 - numpy.eye(q2.shape[1])).max()) if q2.shape[1] else 0.0
+        return out
+
+
+def impl_helper(c):
+    import formulaic.transforms.cubic_spline as CS
+
+    try:
+        if c["fn"] == "map_cyclic":
+            r = CS._map_cyclic(arr(c["x"]), fl(c["lb"]), fl(c["ub"]))
+            return dict(out=[ffs(v) for v in r])
+        if c["fn"] == "sorted_knots":
+            r = CS._get_all_sorted_knots(
+                arr(c["x"]), fl(c["lower"]), fl(c["upper"]), n_inner_knots=c["n_inner"],
+                inner_knots=None if c["inner"] is None else numpy.array([fl(k) for k in c["inner"]], dtype=float))
+            return dict(out=[ffs(v) for v in r])
+        if c["fn"] == "base":
+            ajm, ajp, cjm, cjp, j = CS._compute_base_functions(arr(c["x"]), arr(c["knots"]))
+            return dict(out=[dict(ajm=ffs(a), ajp=ffs(b), cjm=ffs(u), cjp=ffs(v), j=int(k))
+                             for a, b, u, v, k in zip(ajm, ajp, cjm, cjp, j)])
+    except Exception as e:
+        return err_info(e)
+    raise RuntimeError("unknown helper " + c["fn"])
 
 
 # ---- histories: several uses that share the caller's argument objects
@@ -693,28 +1159,55 @@ def impl_hist(c):
 def impl(c):
     if c["kind"] == "hist":
         return impl_hist(c)
+    if c["kind"] == "state":
+        return impl_state(c)
+    if c["kind"] == "helper":
+        return impl_helper(c)
     return impl_bs(c) if c["kind"] == "bs" else impl_cs(c)
+
+
+def _cons_req(cons):
+    if cons is None:
+        return None
+    if isinstance(cons, str):
+        return dict(str=cons)
+    if isinstance(cons, dict):
+        return dict(ndim=cons["ndim"], rows=cons["rows"])
+    return dict(ndim=2, rows=cons)
 
 
 def request(c, o):
     if c["kind"] == "hist":
         outs = o.get("uses") or [{}] * len(c["uses"])
         return dict(op="uses", uses=[request(s, u) for s, u in zip(subcases(c), outs)])
+    if c["kind"] == "helper":
+        return dict(c, op="helper")
+    if c["kind"] == "state":
+        return dict(op="cs_state", state=c["state"], x=c["x"], xshape=c.get("xshape", "vec"),
+                    mode=None if "mode" in (c.get("omit") or []) else c["mode"],
+                    F=o.get("F") or [], Q2=o.get("Q2") or [])
+    omit = set(c.get("omit") or [])
+    g = lambda k: None if k in omit else c[k]
+    # the value of the quantile PARAMETER (the implementation's interior knots) is handed over only when the knots
+    # come from `df` and the implementation recorded a state (otherwise `null`: the model uses its own exact
+    # quantiles); explicit knots are prepared (sorted, de-duplicated, bounds added) by the model alone
     if c["kind"] == "bs":
-        quant = []
-        if "state" in o:
+        quant = None
+        if "state" in o and c["knots"] is None:
             d = c["degree"]
             k = o["state"]["knots"]
             quant = k[d + 1: len(k) - d - 1]
-        return dict(op="bs", x=c["x"], df=c["df"], knots=c["knots"], degree=c["degree"], intercept=c["intercept"],
-                    lower=c["lower"], upper=c["upper"], mode=c["mode"], quant=quant, x2=c["x2"])
-    quant, F, Q2 = [], [], []
+        return dict(op="bs", via=c.get("via"), x=c["x"], df=g("df"), knots=g("knots"), degree=g("degree"),
+                    intercept=g("intercept"), lower=g("lower"), upper=g("upper"), mode=g("mode"), quant=quant, x2=c["x2"])
+    quant, F, Q2 = None, [], []
     if "state" in o:
-        quant = o["state"]["knots"][1:-1]
+        if c["knots"] is None:
+            quant = o["state"]["knots"][1:-1]
         F = o.get("F") or []
         Q2 = o.get("Q2") or []
-    return dict(op="cs", x=c["x"], df=c["df"], knots=c["knots"], lower=c["lower"], upper=c["upper"],
-                constraints=c["constraints"], cyclic=c["cyclic"], mode=c["mode"], quant=quant, F=F, Q2=Q2, x2=c["x2"])
+    return dict(op="cs", via=c.get("via"), xshape=c.get("xshape", "vec"), x2shape=c.get("x2shape", "vec"), x=c["x"],
+                df=g("df"), knots=g("knots"), lower=g("lower"), upper=g("upper"), cons=_cons_req(g("constraints")),
+                cyclic=g("cyclic"), mode=g("mode"), quant=quant, F=F, Q2=Q2, x2=c["x2"])
 
 
 # ----------------------------------------------------------------------------- model vs implementation
@@ -746,6 +1239,25 @@ def _res_small(mat, what, scale=1.0):
     return None
 
 
+def _cmp_F(o, m):
+    """the matrix returned by `_get_natural_f` / `_get_cyclic_f` against the second-derivative map the model solves
+    for exactly on the recorded knots (certified: B.F = D holds exactly for the model's F)"""
+    fi, fm = o.get("F"), m.get("F")
+    if fi is None:
+        return None
+    if not fm:
+        return "the model's exact solver did not produce F for the recorded knots"
+    if len(fi) != len(fm) or any(len(a) != len(b) for a, b in zip(fi, fm)):
+        return f"F has shape {len(fi)}x{len(fi[0]) if fi else 0}, the model's {len(fm)}x{len(fm[0]) if fm else 0}"
+    scale = max([1.0] + [abs(float(Fraction(v))) for row in fm for v in row])
+    for i, (ra, rb) in enumerate(zip(fi, fm)):
+        for j, (a, b) in enumerate(zip(ra, rb)):
+            if abs(float(Fraction(a)) - float(Fraction(b))) > 1e-9 * scale:
+                return (f"F[{i}][{j}] = {float(Fraction(a))!r} but the exact solution of the tridiagonal system on the "
+                        f"recorded knots is {float(Fraction(b))!r}")
+    return None
+
+
 def _not_modelled(m):
     return str(m.get("error", "")).startswith("not-modelled")
 
@@ -774,6 +1286,72 @@ def agree_hist(c, o, m):
     return None
 
 
+def _cmp_exact_state(o, m):
+    """the recorded bounds and knots against the state the model derives ALONE from the arguments and the data
+    (explicit knots: sorted / de-duplicated exactly; `df`: the linear-interpolation quantiles of the sample computed
+    on exact rationals) - knots within rounding of the float quantile computation, bounds exactly"""
+    ex = m.get("exact")
+    if not isinstance(ex, dict):
+        return "the model gave no exact state"
+    if "error" in ex:
+        if str(ex["error"]).startswith("not-modelled"):
+            return None
+        return f"the model alone (exact quantile knots) fails with {ex['error']} ({ex.get('reason')}), the implementation records a state"
+    for k in ("lower", "upper"):
+        if Fraction(o["state"][k]) != Fraction(ex[k]):
+            return f"state {k}: implementation {o['state'][k]} vs model {ex[k]}"
+    got = [float(Fraction(v)) for v in o["state"]["knots"]]
+    want = [float(Fraction(v)) for v in ex["knots"]]
+    if len(got) != len(want) or any(not close(a, b) for a, b in zip(got, want)):
+        return f"recorded knots {got} vs the knots the model places exactly {want}"
+    return None
+
+
+def agree_state(c, o, m):
+    if "error" in o or "error" in m:
+        return _cmp_reason(o, m) if o.get("error") == m.get("error") else \
+            f"transform on the given state: implementation {o.get('error', 'ok')} vs model {m.get('error', 'ok')} ({m.get('reason')})"
+    st = c["state"]
+    for k in ("lower", "upper"):
+        if Fraction(o["state_after"][k]) != Fraction(st[k]):
+            return f"the call changed state[{k}_bound] to {o['state_after'][k]}"
+    if [Fraction(v) for v in o["state_after"]["knots"]] != [Fraction(v) for v in st["knots"]]:
+        return f"the call changed state['knots'] to {o['state_after']['knots']}"
+    hs = [float(Fraction(b) - Fraction(a)) for a, b in zip(st["knots"], st["knots"][1:])]
+    scale = max(1.0, max(1 / h for h in hs)) if hs and min(hs) > 0 else 1.0
+    w = _cmp_F(o, m) or _res_small(m.get("resF"), "B.F = D", scale) or _res_small(m.get("resQ"), "c.Q2 = 0")
+    if w:
+        return w
+    if o.get("orth", 0.0) > 1e-9:
+        return f"contract Q2 orthonormal violated: {o['orth']:.3e}"
+    if o["first"]["ncols"] != m["out"]["ncols"]:
+        return f"{o['first']['ncols']} columns vs model {m['out']['ncols']}"
+    return _cmp_rows(o["first"]["rows"], m["out"]["rows"], "rows")
+
+
+def agree_helper(c, o, m):
+    if "error" in o or "error" in m:
+        return _cmp_reason(o, m) if o.get("error") == m.get("error") else \
+            f"{c['fn']}: implementation {o.get('error', 'ok')} vs model {m.get('error', 'ok')} ({m.get('reason')})"
+    a, b = o["out"], m["out"]
+    if len(a) != len(b):
+        return f"{c['fn']}: {len(a)} values vs model {len(b)}"
+    if c["fn"] == "base":
+        for i, (u, v) in enumerate(zip(a, b)):
+            if "error" in v:
+                return f"base functions at x[{i}]: model {v['error']}"
+            if u["j"] != v["j"]:
+                return f"base functions at x[{i}]={c['x'][i]}: interval index {u['j']} vs model {v['j']}"
+            for k in ("ajm", "ajp", "cjm", "cjp"):
+                if not close(float(Fraction(u[k])), float(Fraction(v[k]))):
+                    return f"base functions at x[{i}]={c['x'][i]}: {k} = {float(Fraction(u[k]))!r} vs model {float(Fraction(v[k]))!r}"
+        return None
+    for i, (u, v) in enumerate(zip(a, b)):
+        if not close(float(Fraction(u)), float(Fraction(v))):
+            return f"{c['fn']}: value {i} is {float(Fraction(u))!r}, model {float(Fraction(v))!r}"
+    return None
+
+
 def agree(c, o, m):
     if "driver_error" in m:
         return "driver: " + m["driver_error"][:300]
@@ -783,8 +1361,13 @@ def agree(c, o, m):
         return agree_hist(c, o, m)
     if str(m.get("error", "")).startswith("not-modelled"):
         return None
+    if c["kind"] == "state":
+        return agree_state(c, o, m)
+    if c["kind"] == "helper":
+        return agree_helper(c, o, m)
     if "error" in o or "error" in m:
-        return None if o.get("error") == m.get("error") else f"fit: implementation {o.get('error', 'ok')} vs model {m.get('error', 'ok')}"
+        return _cmp_reason(o, m) if o.get("error") == m.get("error") else \
+            f"fit: implementation {o.get('error', 'ok')} vs model {m.get('error', 'ok')} ({m.get('reason')})"
     if o.get("nan_params"):
         return "the implementation's F / Q2 / recorded constraints contain NaN"
     for k in ("lower", "upper"):
@@ -792,28 +1375,19 @@ def agree(c, o, m):
             return f"state {k}: implementation {o['state'][k]} vs model {m['state'][k]}"
     if [Fraction(v) for v in o["state"]["knots"]] != [Fraction(v) for v in m["state"]["knots"]]:
         return f"state knots: implementation {o['state']['knots']} vs model {m['state']['knots']}"
-    sample = [Fraction(v) for v in m["sample"]]
+    w = _cmp_exact_state(o, m)
+    if w:
+        return w
     if c["kind"] == "bs":
-        if c["df"]:
-            d = c["degree"]
-            got = [Fraction(v) for v in o["state"]["knots"]][d + 1: len(o["state"]["knots"]) - d - 1]
-            want = quantiles(sample, len(got)) if sample else []
-            if len(want) != len(got) or any(not close(float(a), float(b)) for a, b in zip(got, want)):
-                return f"quantile contract: interior knots {list(map(float, got))} are not the quantiles {list(map(float, want))} of the model's sample"
         if o["first"]["cols"] != m["first"]["cols"]:
             return f"columns {o['first']['cols']} vs model {m['first']['cols']}"
         w = _cmp_rows(o["first"]["rows"], m["first"]["rows"], "first call")
         if w:
             return w
     else:
-        if c["df"] is not None:
-            got = [Fraction(v) for v in o["state"]["knots"]][1:-1]
-            want = quantiles(sample, len(got)) if sample else []
-            if len(want) != len(got) or any(not close(float(a), float(b)) for a, b in zip(got, want)):
-                return f"quantile contract: inner knots {list(map(float, got))} are not the percentiles {list(map(float, want))} of the model's sample"
         hs = [float(Fraction(b) - Fraction(a)) for a, b in zip(o["state"]["knots"], o["state"]["knots"][1:])]
         scale = max(1.0, max(1 / h for h in hs)) if hs and min(hs) > 0 else 1.0
-        w = _res_small(m.get("resF"), "B.F = D", scale)
+        w = _cmp_F(o, m) or _res_small(m.get("resF"), "B.F = D", scale)
         if w:
             return w
         w = _res_small(m.get("resQ"), "c.Q2 = 0")
@@ -873,6 +1447,8 @@ def cdb_row(t, d, x, piece=None):
 def _bs_expected_error(c):
     """None = must succeed, 'ValueError' = must raise, '?' = the property does not say"""
     vals = [Fraction(v) for v in c["x"] if v is not None]
+    if c["mode"] not in MODES or c["degree"] < 0 or not vals:
+        return "?"  # not a documented mode / degree, no data: argument validation, outside the property
     lo = Fraction(c["lower"]) if c["lower"] is not None else min(vals)
     hi = Fraction(c["upper"]) if c["upper"] is not None else max(vals)
     if c["df"] is not None and c["knots"] is not None:
@@ -893,10 +1469,12 @@ def _knots_ok(lo, hi, interior):
     return lo <= hi and all(lo <= k <= hi for k in interior) and all(a <= b for a, b in zip(interior, interior[1:]))
 
 
-def _oracle_bs_rows(c, st, xs, out, which):
+def _oracle_bs_rows(c, st, xs, out, which, t_ref=None):
+    """t_ref: the knot vector the arguments denote (explicit knots: bounds padded around the knots in ascending
+    order, whatever the transform recorded); default: the recorded knot vector"""
     d, icpt, mode = c["degree"], c["intercept"], c["mode"]
     lo, hi = Fraction(st["lower"]), Fraction(st["upper"])
-    t = [Fraction(v) for v in st["knots"]]
+    t = [Fraction(v) for v in st["knots"]] if t_ref is None else t_ref
     interior = t[d + 1: len(t) - d - 1]
     if "error" in out:
         outside = any(v is not None and (Fraction(v) < lo or Fraction(v) > hi) for v in xs)
@@ -970,6 +1548,8 @@ def oracle_bs(c, o):
         if c["mode"] == "raise" and not (c["df"] is not None and c["knots"] is not None):
             return "extrapolation='raise' did not raise although a value lies outside the bounds"
         return None  # argument validation is not part of the property
+    if c["mode"] not in MODES or c["degree"] < 0:
+        return None
     st = o["state"]
     d = c["degree"]
     t = [Fraction(v) for v in st["knots"]]
@@ -982,14 +1562,39 @@ def oracle_bs(c, o):
         want = quantiles(vals, len(interior)) if vals else []
         if len(want) != len(interior) or any(not close(float(a), float(b)) for a, b in zip(interior, want)):
             return f"interior knots {list(map(float, interior))} are not the equally spaced quantiles {list(map(float, want))} of the in-range data"
-    if not c["df"] and c["knots"] is not None and interior != [Fraction(k) for k in c["knots"]]:
-        return (f"recorded interior knots {list(map(float, interior))} differ from the knots that were passed "
-                f"{[float(Fraction(k)) for k in c['knots']]}")
-    w = _oracle_bs_rows(c, st, c["x"], o["first"], "first call")
+    t_ref = None
+    if not c["df"] and c["knots"] is not None:
+        # the basis the arguments denote: on the bounds padded around the given knots in ascending order
+        t_ref = [lo] * (d + 1) + sorted(Fraction(k) for k in c["knots"]) + [hi] * (d + 1)
+    w = _oracle_bs_rows(c, st, c["x"], o["first"], "first call", t_ref)
     if w:
         return w
     if o.get("second") is not None:
-        return _oracle_bs_rows(c, st, c["x2"], o["second"], "second call")
+        w = _oracle_bs_rows(c, st, c["x2"], o["second"], "second call", t_ref)
+        if w:
+            return w
+    if t_ref is not None and t != t_ref:
+        return (f"recorded interior knots {list(map(float, interior))} are not the knots that were passed "
+                f"{[float(Fraction(k)) for k in c['knots']]} in ascending order")
+    return _same_as_ascending(c, o)
+
+
+def _same_as_ascending(c, o):
+    """the basis is a function of the SET of breakpoints (bs: of the multiset): the same knots listed in ascending
+    order must record the same state and give the same values"""
+    ref = o.get("ascending")
+    if ref is None:
+        return None
+    ks = [float(Fraction(k)) for k in c["knots"]]
+    if "error" in ref:
+        return f"knots={ks} succeeds but the same knots listed in ascending order raise {ref['error']}"
+    if ref["state"] != o["state"]:
+        return (f"knots={ks}: recorded state {o['state']} differs from the state recorded for the same knots listed "
+                f"in ascending order {ref['state']}")
+    for part in ("first", "second"):
+        a, b = o.get(part), ref.get(part)
+        if a != b:
+            return f"knots={ks}: the {part} call's values depend on the order in which the knots are listed"
     return None
 
 
@@ -1079,13 +1684,21 @@ def _oracle_cs_rows(c, o, xs, out, which, ev, Q2):
 def _cs_must_succeed(c):
     """True only in clear-cut cases: valid arguments for which the recorded knots are fully determined"""
     vals = [Fraction(v) for v in c["x"] if v is not None]
+    cons = c["constraints"]
+    if c["mode"] not in MODES or not vals or c.get("xshape", "vec") in ("mat", "cube"):
+        return False
+    if isinstance(cons, str) and cons != "center":
+        return False
+    if isinstance(cons, dict):
+        if cons["ndim"] > 2:
+            return False
+        cons = cons["rows"]
     lo = Fraction(c["lower"]) if c["lower"] is not None else min(vals)
     hi = Fraction(c["upper"]) if c["upper"] is not None else max(vals)
     if lo >= hi or (c["df"] is not None and c["knots"] is not None) or (c["df"] is None and c["knots"] is None):
         return False
     if c["mode"] == "raise" and any(v < lo or v > hi for v in vals):
         return False
-    cons = c["constraints"]
     nc = 0 if cons is None else 1
     if c["df"] is not None:
         if c["df"] < (2 if (not c["cyclic"] and nc == 0) else 1):
@@ -1113,9 +1726,16 @@ def oracle_cs(c, o):
         if _cs_must_succeed(c):
             return f"cubic_spline raised {o['error']} on valid arguments (df/knots are in the documented range)"
         return None  # argument validation / too few distinct values: not part of the property
+    if c["mode"] not in MODES or c.get("xshape", "vec") in ("mat", "cube"):
+        return None  # not a documented mode / not a vector: nothing is claimed about such a call
     knots = [float(Fraction(v)) for v in o["state"]["knots"]]
     if any(b <= a for a, b in zip(knots, knots[1:])) or len(knots) < 2:
         return f"recorded knots {knots} are not strictly increasing"
+    if c["knots"] is not None:
+        want = sorted(set([Fraction(k) for k in c["knots"]] + [Fraction(o["state"]["lower"]), Fraction(o["state"]["upper"])]))
+        if [Fraction(v) for v in o["state"]["knots"]] != want:
+            return (f"recorded knots {knots} are not the distinct knots that were passed "
+                    f"{[float(Fraction(k)) for k in c['knots']]} together with the bounds, in ascending order")
     ev, n = _ref_basis(knots, c["cyclic"])
     Q2 = None
     if o["state"]["constraints"] is not None:
@@ -1154,7 +1774,81 @@ def oracle_cs(c, o):
         if means.size and numpy.abs(means).max() > 1e-9:
             return f"centering constraint: column means on the training data are {means.tolist()}"
     if o.get("second") is not None:
-        return _oracle_cs_rows(c, o, c["x2"], o["second"], "second call", ev, Q2)
+        w = _oracle_cs_rows(c, o, c["x2"], o["second"], "second call", ev, Q2)
+        if w:
+            return w
+    return _same_as_ascending(c, o)
+
+
+def oracle_state(c, o):
+    """cubic_spline on a state the caller supplies: the values are those of the cardinal basis through the state's
+    knots (absorbed through Q2 when the state holds constraints), under the requested extrapolation mode"""
+    st = c["state"]
+    ks = [Fraction(k) for k in st["knots"]]
+    valid = len(ks) >= 2 and all(a < b for a, b in zip(ks, ks[1:]))
+    if not valid or c["mode"] not in MODES or c.get("xshape", "vec") in ("mat", "cube"):
+        return None  # nothing is claimed for such a call
+    knots = [float(k) for k in ks]
+    ev, n = _ref_basis(knots, st["cyclic"])
+    shim_c = dict(mode=c["mode"], cyclic=st["cyclic"])
+    shim_o = dict(state=dict(lower=st["lower"], upper=st["upper"]))
+    Q2 = None
+    if "error" not in o and st["constraints"] is not None:
+        Q2 = numpy.array([[float(Fraction(v)) for v in col] for col in (o.get("Q2") or [])]).T.reshape((n, len(o.get("Q2") or [])))
+    out = o if "error" in o else dict(rows=o["first"]["rows"])
+    return _oracle_cs_rows(shim_c, shim_o, c["x"], out, "given state", ev, Q2)
+
+
+def oracle_helper(c, o):
+    fn = c["fn"]
+    if fn == "map_cyclic":
+        lb, ub = Fraction(c["lb"]), Fraction(c["ub"])
+        if lb >= ub:
+            return None
+        if "error" in o:
+            return f"_map_cyclic raised {o['error']} for the interval [{float(lb)}, {float(ub)}]"
+        for xv, yv in zip(c["x"], o["out"]):
+            x, y = Fraction(xv), Fraction(yv)
+            if not (lb <= y <= ub):
+                return f"_map_cyclic({float(x)}) = {float(y)} is outside [{float(lb)}, {float(ub)}]"
+            if lb <= x <= ub and y != x:
+                return f"_map_cyclic moved the in-range value {float(x)} to {float(y)}"
+            k = (y - x) / (ub - lb)
+            if k.denominator != 1:
+                return f"_map_cyclic({float(x)}) = {float(y)} is not a shift by a whole number of periods"
+        return None
+    if fn == "sorted_knots":
+        if "error" in o:
+            return None
+        got = [Fraction(v) for v in o["out"]]
+        lo, hi = Fraction(c["lower"]), Fraction(c["upper"])
+        if any(b <= a for a, b in zip(got, got[1:])) or len(got) < 2 or got[0] != lo or got[-1] != hi:
+            return f"_get_all_sorted_knots returned {list(map(float, got))}: not strictly increasing from the lower to the upper bound"
+        if c["inner"] is not None:
+            want = sorted(set([Fraction(k) for k in c["inner"]] + [lo, hi]))
+            if got != want:
+                return f"_get_all_sorted_knots returned {list(map(float, got))}, the distinct given knots and bounds are {list(map(float, want))}"
+        else:
+            sample = sorted(set(Fraction(v) for v in c["x"] if v is not None and lo <= Fraction(v) <= hi))
+            want = quantiles(sample, len(got) - 2) if sample else []
+            if len(got) - 2 != c["n_inner"] or len(want) != len(got) - 2 or any(not close(float(a), float(b)) for a, b in zip(got[1:-1], want)):
+                return f"inner knots {list(map(float, got[1:-1]))} are not the {c['n_inner']} equally spaced percentiles {list(map(float, want))}"
+        return None
+    if fn == "base":
+        if "error" in o:
+            return f"_compute_base_functions raised {o['error']} on ascending knots"
+        ks = [Fraction(k) for k in c["knots"]]
+        for xv, b in zip(c["x"], o["out"]):
+            x, j = Fraction(xv), b["j"]
+            if not (0 <= j <= len(ks) - 2):
+                return f"interval index {j} for x={float(x)} is outside 0..{len(ks) - 2}"
+            if ks[0] < x <= ks[-1] and not (ks[j] < x <= ks[j + 1]):
+                return f"x={float(x)} is not in (knots[{j}], knots[{j + 1}]]"
+            if x <= ks[0] and j != 0 or x > ks[-1] and j != len(ks) - 2:
+                return f"x={float(x)} outside the knots got interval index {j}"
+            if not close(float(Fraction(b["ajm"]) + Fraction(b["ajp"])), 1.0):
+                return f"a-(x) + a+(x) = {float(Fraction(b['ajm']) + Fraction(b['ajp']))!r} at x={float(x)}"
+        return None
     return None
 
 
@@ -1210,6 +1904,10 @@ def oracle(c, o):
         return "harness could not run the implementation: " + o["harness_exception"]
     if c["kind"] == "hist":
         return oracle_hist(c, o)
+    if c["kind"] == "state":
+        return oracle_state(c, o)
+    if c["kind"] == "helper":
+        return oracle_helper(c, o)
     return oracle_bs(c, o) if c["kind"] == "bs" else oracle_cs(c, o)
 
 
@@ -1242,30 +1940,40 @@ def classify(c, o, why):
 
 
 LEVEL_TEXT = (
-    "Proof: Lean theorems (Props/C12.lean) show for EVERY knot list, degree and x that the model of basis_spline's two-buffer "
-    "sweep computes the Cox-de Boor recursion; for every degree and every non-decreasing interior knot list inside the bounds "
-    "(any multiplicity) that the basis is non-negative, locally supported and sums to one on the closed interval [lower, upper]; "
-    "that a successful call with df=k has exactly k columns; what each of the five extrapolation modes returns (clip = row of the "
-    "clipped value, na = null row, zero = zero row, raise = error iff a value is outside, extend = polynomial extension of the "
-    "boundary piece, still summing to one) and that nulls stay null rows; for the cubic regression splines that the free design "
-    "matrix at knot k is the unit row e_k for ANY second-derivative map F (natural; cyclic with first and last knot identified); "
-    "that under the contract B.F = D (the matrices of _get_natural_f/_get_cyclic_f, exactly as the engine evaluates it) every column "
-    "of the free design matrix is, on each closed knot interval, the cubic piece computed by the model, that these pieces interpolate "
-    "the unit vector, have equal second derivatives at shared knots and equal FIRST derivatives at every interior knot (every node of "
-    "the circle for cc) - first-derivative continuity at a knot being EQUIVALENT to that knot's tridiagonal equation for any F -, that "
-    "the second derivative vanishes at the boundary knots and the column continues as the tangent line outside the knots (natural "
-    "spline, extrapolation='extend'); the derivatives are those of the polynomial pieces (Polynomial.derivative, and HasDerivAt: the "
-    "glued real function is twice differentiable everywhere); "
-    "and that absorbing the centering constraint gives exactly zero column means whenever Q2 is orthogonal to the constraint. "
-    "The models are tied to the code by a differential correspondence on every run; quantiles, linear solves and QR enter as "
-    "parameters whose contracts are checked numerically per case. The theorems are about fit/transform as FUNCTIONS of the "
-    "arguments the user wrote (bs_ncols_knots: explicit knots ks give len(ks) + degree + intercept columns); that the code is "
-    "such a function at every use - also when the same knots / constraints objects are handed to several terms, several "
-    "model_matrix calls or repeated direct calls - is checked by the history stream of the correspondence."
+    "Proof: Lean theorems (Props/C12.lean, 51 obligations) show for EVERY knot list, degree and x that the model of basis_spline's "
+    "two-buffer sweep computes the Cox-de Boor recursion; for every degree and every non-decreasing interior knot list inside the "
+    "bounds (any multiplicity) that the basis is non-negative, locally supported and sums to one on the closed interval [lower, "
+    "upper]; that a successful call with df=k has exactly k columns (bs and cr/cc); what each of the five extrapolation modes "
+    "returns and that nulls stay null rows; for the cubic regression splines that the free design matrix at knot k is the unit row "
+    "e_k for ANY second-derivative map F; that under the contract B.F = D every column is, on each closed knot interval, the cubic "
+    "piece computed by the model, that these pieces interpolate the unit vector, are C2 (first-derivative continuity at a knot being "
+    "EQUIVALENT to that knot's tridiagonal equation), satisfy the natural end conditions / periodic wrap and continue as the "
+    "tangent line outside the knots; derivatives are Polynomial.derivative / HasDerivAt.  NEW: uniqueness and existence - the "
+    "tridiagonal systems are strictly diagonally dominant, so for every strictly increasing knot vector exactly one F satisfies the "
+    "contract (cr/cc_F_exists_unique), it is what the model's exact solver returns (solveF_is_the_solution), and ANY family of "
+    "cubic polynomials with the defining conditions of the natural / periodic interpolating spline of e_c coincides with the "
+    "model's column (cr/cc_interpolant_unique): the columns are THE cardinal splines.  NEW: the entry points - the call as written "
+    "(array shape of x, extrapolation string, constraints of any form, omitted arguments, aliases) is modelled with one reason per "
+    "raise statement and proved to refine the numerical model (cs/bs_entry_refines_fit); which calls are rejected and what an "
+    "accepted call guarantees (cs_rejects, cs_accepted_knots: strictly increasing knots, at least two, = the distinct values among "
+    "bounds and the user's list); which exits of _get_all_sorted_knots / _map_cyclic cannot be taken through cubic_spline "
+    "(cs_unreachable_exits) and that the numerical part cannot fail on an admissible state (cs_numeric_part_total); explicit knots "
+    "may be listed in any order (cr/cc: with repeats) without changing state or values (cs/bs_explicit_knots_order_irrelevant); the "
+    "quantile knots (linear interpolation of order statistics, computed by the model on exact rationals) are m in number, sorted "
+    "and inside the sample range, make the recorded bs knot vector admissible (bs_df_knots_admissible) and never collide for cr/cc "
+    "when the in-range data hold two distinct values (cs_df_knots_never_collide); the generated tables (modes, defaults, aliases) "
+    "are the documented ones (spline_tables_documented).  Centering: absorbing the constraint gives exactly zero column means "
+    "whenever Q2 is orthogonal to it.  The models are tied to the code by a differential correspondence on every run that "
+    "executes every line and branch of basis_spline.py and cubic_spline.py; only QR enters as a parameter whose contract is checked "
+    "per case.  That the code is a function of the arguments the user wrote at every use - also when the same knots / constraints "
+    "objects are handed to several terms, several model_matrix calls or repeated direct calls - is checked by the history stream."
 )
 LEVEL_NOTE = (
-    "Partial: numpy.nanquantile / solve_banded / solve / qr are parameters (contracts checked per case, not proved); float rounding "
-    "not modelled (1e-9 agreement), so the exact contract B.F = D of the interpolation theorems holds for the implementation's F only "
-    "up to the numerically checked residual; uniqueness of the natural/periodic interpolating spline is not proved (its defining "
-    "conditions are)."
+    "Partial: numpy.linalg.qr is a parameter (contract checked per case, not proved); the float quantile knots and the float F "
+    "of the implementation are compared with the model's exact ones at 1e-9 (float rounding is not modelled), so the exact "
+    "contract B.F = D of the interpolation theorems holds for the MODEL's F and for the implementation's F only up to that "
+    "tolerance; that the model's exact elimination never fails on strictly increasing knots is observed per case, not proved "
+    "(existence of F is proved abstractly); bs with df and extrapolation='extend' and bounds narrower than the data takes the "
+    "quantiles of all the data (knots may leave the bounds: the value theorems then do not apply and the oracle makes no value "
+    "claim there)."
 )
